@@ -12,7 +12,7 @@ use refimpl as r;
 use refimpl::{Mode, MODES};
 use serde_json::json;
 
-const RULE: &str = "for honest keys and signed (M, ctx, mode): (1) every other split i != |ctx|, i <= 255, of the concatenation ctx||M into (ctx', M') must be rejected in the same mode; (1b) every single-byte change of the context (all positions), the context truncated/extended by one byte, message bytes changed/extended/truncated must be rejected; (2) cross-mode mimicry: the pure signature of OID||PH(M) (also with domain and length bytes prepended) must be rejected by hash_verify(M, PH), and a pre-hash signature must be rejected by pure verify of OID||PH(M) and of the literal formatted bytes; (3) every other pre-hash function (incl. SHA-256 vs SHAKE128 which share the digest length) and the other mode must reject; the original must verify. The reference is run on every alternative as well (it must also say false). Non-trivial = distinct alternative interpretations evaluated against a signature that verifies under its own interpretation.";
+const RULE: &str = "for honest keys and signed (M, ctx, mode): (1) every other split i != |ctx|, i <= 255, of the concatenation ctx||M into (ctx', M') must be rejected in the same mode; (1b) every single-byte change of the context (all positions), the context truncated/extended by one byte, message bytes changed/extended/truncated must be rejected; (2) cross-mode mimicry, including every split of ctx||OID||PH(M) under pure verify and pure signatures over splits shifted by up to two bytes under hash_verify: the pure signature of OID||PH(M) (also with domain and length bytes prepended) must be rejected by hash_verify(M, PH), and a pre-hash signature must be rejected by pure verify of OID||PH(M) and of the literal formatted bytes; (3) every other pre-hash function (incl. SHA-256 vs SHAKE128 which share the digest length) and the other mode must reject; the original must verify. The reference is run on every alternative as well (it must also say false). Non-trivial = distinct alternative interpretations evaluated against a signature that verifies under its own interpretation.";
 
 pub fn run(ctx: &Ctx) -> StageOut {
     let mut acc = Acc::new();
@@ -166,9 +166,28 @@ fn run_set<S: PS>(ctx: &Ctx) -> Acc {
             if let Ok((Ok(sig), _)) = sign_replay::<S>(&sk, &literal[1..], &[], Mode::Pure, &rnd) {
                 alt::<S>(&mut acc, &pk, &pk_b, "pure-sig-of-literal-tail-as-hash", &m, &cx, ph, &sig, false);
             }
+            // every split of B = ctx || OID || PH(M0): a pure signature over (B[..i], B[i..]) must not be a
+            // pre-hash signature of (M0, ctx) (a header whose two bytes are mixed up moves the boundary by one)
+            {
+                let mut bcat = cx.clone();
+                bcat.extend_from_slice(&mimic);
+                let lo = cx.len().saturating_sub(2);
+                let hi = (cx.len() + 2).min(255).min(bcat.len());
+                for i in lo..=hi {
+                    if let Ok((Ok(sig), _)) = sign_replay::<S>(&sk, &bcat[i..], &bcat[..i], Mode::Pure, &rnd) {
+                        alt::<S>(&mut acc, &pk, &pk_b, "pure-sig-of-shifted-split-as-hash", &m, &cx, ph, &sig, false);
+                    }
+                }
+            }
             // hash signature -> pure verify of OID || PH(M) (same ctx), and of the literal bytes
             if let Ok((Ok(sig), _)) = sign_replay::<S>(&sk, &m, &cx, ph, &rnd) {
                 alt::<S>(&mut acc, &pk, &pk_b, "hash-sig-as-pure", &mimic, &cx, Mode::Pure, &sig, true);
+                // ... and under pure verify for EVERY split of ctx || OID || PH(M0)
+                let mut bcat = cx.clone();
+                bcat.extend_from_slice(&mimic);
+                for i in 0..=bcat.len().min(255) {
+                    alt::<S>(&mut acc, &pk, &pk_b, "hash-sig-as-pure-any-split", &bcat[i..], &bcat[..i], Mode::Pure, &sig, i % 32 == 0);
+                }
                 alt::<S>(&mut acc, &pk, &pk_b, "hash-sig-as-pure-literal", &literal, &[], Mode::Pure, &sig, false);
                 alt::<S>(&mut acc, &pk, &pk_b, "hash-sig-as-pure-literal-tail", &literal[1..], &[], Mode::Pure, &sig, false);
                 // digest passed as the message to the same PH (double hashing) and to pure
